@@ -405,4 +405,28 @@ example :
     (([[], [1, 0], [0, 1]].foldlM (fun (T : Table) b => T.define b) Table.init).map fun T => (T.labels 2, T.labels 3)) = some ([2, 1], [3]) ∧
     [[0], [0, 1]].foldlM (fun (T : Table) b => T.define b) Table.init = none := by decide
 
+/-- **The nesting fuel is immaterial** (it is a device of the model, not of the code): when links only point to instances
+    created later — what the generator and the driver enforce; Python would raise `RecursionError` on a cycle — any two
+    fuels at least the number of instances (the driver uses one more) give the same run; and with that fuel no nested call
+    is dropped: a call on an instance whose bodies step instance `j` comprises, besides itself, at least one call per body
+    that ran. -/
+theorem C05_nested_fuel_is_immaterial (links : List (Option Nat)) (hf : Forward links) (w : List Inst) (i : Nat)
+    (args : List Int) :
+    (∀ f f', w.length ≤ f → w.length ≤ f' → stepNested links f w i args = stepNested links f' w i args) ∧
+    (∀ f j x, w[i]? = some x → links[i]?.join = some j → j < w.length →
+      1 + (callStep x args).2.1.length ≤ (stepNested links (f + 2) w i args).2.length) :=
+  ⟨fun f f' h1 h2 => stepNested_fuel links hf f f' w i args (by omega) (by omega),
+   fun f j x hx hl hj => stepNested_calls_ge links f w i j args x hx hl hj⟩
+
+/-- non-vacuity: model 0 (two bodies) steps model 1 (one body), which steps model 2: five calls, whatever the fuel ≥ 3 -/
+example : (stepNested [some 1, some 2, none] 3
+      [Inst.new [⟨true, true, false⟩, ⟨true, false, false⟩] 9, Inst.new [⟨true, false, false⟩] 9, Inst.new [] 9] 0 []).2.map (·.inst)
+    = [0, 1, 2, 1, 2] ∧ Forward [some 1, some 2, none] := by
+  refine ⟨by decide, fun i j h => ?_⟩
+  match i, h with
+  | 0, h => simp at h; omega
+  | 1, h => simp at h; omega
+  | 2, h => simp at h
+  | n + 3, h => simp at h
+
 end Mesa.Steps
